@@ -3,12 +3,12 @@ From Coq Require Import List NArith Bool Lia.
 From GoPdf.C08 Require Import Classify.
 Import ListNotations.
 
-Definition classified (e : gerr) : Prop := is_eof e = true \/ is_mal e = true.
+Definition classified (e : gerr) : Prop := eof_ident e = true \/ is_mal e = true.
 
 Lemma content_read_classified e x : content_read e = Some x -> classified x.
 Proof.
   unfold content_read, classified. destruct e as [y|]; [|discriminate].
-  destruct (is_eof y) eqn:E1, (is_mal y) eqn:E2; cbn; intro H; inversion H; subst; cbn; auto.
+  destruct (eof_ident y) eqn:E1, (is_mal y) eqn:E2; cbn; intro H; inversion H; subst; cbn; auto.
 Qed.
 
 Lemma as_malformed_classified e x : as_malformed e = Some x -> is_mal x = true.
@@ -20,14 +20,14 @@ Qed.
 (* the sticky error is a non-EOF error the source returned, or the one we started with *)
 Lemma src_records_from evs : forall sticky s,
   src_records sticky evs = Some s ->
-  sticky = Some s \/ (In (Some s) evs /\ is_eof s = false).
+  sticky = Some s \/ (In (Some s) evs /\ eof_ident s = false).
 Proof.
   induction evs as [|e evs IH]; intros sticky s H; cbn in H.
   - left. exact H.
   - apply IH in H as [H | [H1 H2]].
     + unfold src_record in H. destruct sticky as [k|].
       * left. exact H.
-      * destruct e as [x|]; [|discriminate]. destruct (is_eof x) eqn:E; [discriminate|].
+      * destruct e as [x|]; [|discriminate]. destruct (eof_ident x) eqn:E; [discriminate|].
         inversion H; subst. right. split; [left; reflexivity | exact E].
     + right. split; [right; exact H1 | exact H2].
 Qed.
@@ -55,7 +55,7 @@ Proof.
 Qed.
 
 Theorem construct_classified evs e x :
-  construct evs e = Some x -> is_mal x = true \/ (In (Some x) evs /\ is_eof x = false).
+  construct evs e = Some x -> is_mal x = true \/ (In (Some x) evs /\ eof_ident x = false).
 Proof.
   unfold construct, source_aware. intro H.
   destruct (as_malformed e) as [y|] eqn:Ea; [|discriminate].
@@ -64,47 +64,11 @@ Proof.
   - inversion H; subst y. left. eapply as_malformed_classified; eauto.
 Qed.
 
-(* the strict reading (io.EOF itself or malformed) fails for an inner reader that wraps io.EOF *)
-Definition strict (e : gerr) : Prop := eof_ident e = true \/ is_mal e = true.
-
-Lemma strict_refuted :
-  exists inner, gerr_wf inner /\ exists e, read_all None [([], Some inner)] = Some e /\ ~ strict e.
+(* before commit c59f855 the wrapper let an error that merely WRAPS io.EOF through unclassified *)
+Lemma errors_is_variant_leaks :
+  exists inner, gerr_wf inner /\ exists e, content_read_errors_is (Some inner) = Some e /\ ~ classified e.
 Proof.
   exists (GE true false false 3). split.
   - intro H. discriminate.
   - eexists. split; [reflexivity|]. intros [H | H]; discriminate.
-Qed.
-
-(* ... and holds when inner readers signal the end of data with io.EOF itself *)
-Definition eof_plain (e : option gerr) : Prop :=
-  match e with Some x => is_eof x = true -> eof_ident x = true | None => True end.
-
-Lemma content_read_strict e x : eof_plain e -> content_read e = Some x -> strict x.
-Proof.
-  unfold content_read, strict, eof_plain. destruct e as [y|]; [|discriminate].
-  intros Hp. destruct (is_eof y) eqn:E1, (is_mal y) eqn:E2; cbn; intro H; inversion H; subst; cbn; auto.
-Qed.
-
-Theorem read_all_strict : forall cs sticky e,
-  Forall (fun c => eof_plain (snd c)) cs ->
-  read_all sticky cs = Some e ->
-  strict e \/ sticky = Some e \/ source_failed_with (map fst cs) e.
-Proof.
-  induction cs as [|c cs IH]; intros sticky e Hall H; cbn [read_all] in H; [discriminate|].
-  inversion Hall as [|? ? Hc Hcs]; subst.
-  unfold top_read in H. set (s' := src_records sticky (fst c)) in *.
-  destruct (source_aware (content_read (snd c)) s') as [x|] eqn:E.
-  - inversion H; subst x. unfold source_aware in E.
-    destruct (content_read (snd c)) as [y|] eqn:Ec; [|discriminate].
-    destruct s' as [s|] eqn:Es.
-    + inversion E; subst s. apply src_records_from in Es as [Hs | [H1 H2]].
-      * right; left. exact Hs.
-      * right; right. exists (fst c). split; [left; reflexivity | split; assumption].
-    + inversion E; subst y. left. eapply content_read_strict; eauto.
-  - apply IH in H as [H | [H | (evs & H1 & H2 & H3)]]; [| | | exact Hcs].
-    + left. exact H.
-    + apply src_records_from in H as [H | [H1 H2]].
-      * right; left. exact H.
-      * right; right. exists (fst c). split; [left; reflexivity | split; assumption].
-    + right; right. exists evs. split; [right; exact H1 | split; assumption].
 Qed.
